@@ -307,6 +307,20 @@ func (e *Engine) evalIdent(env *Env, name string) (TV, error) {
 	}
 	if env.fr != nil {
 		if g, ok := env.fr.ghosts[name]; ok {
+			// a ghost declared with a slice / pointer / struct type keeps that type (indexing, field access);
+			// scalar and spec-sort ghosts stay untyped as before
+			if env.fr.contract != nil {
+				for _, gd := range env.fr.contract.Ghosts {
+					if gd.Name == name {
+						if ty, _, err := e.resolveType(env, gd.Type); err == nil && ty != nil {
+							switch ty.Underlying().(type) {
+							case *types.Slice, *types.Pointer, *types.Struct:
+								return TV{g, ty}, nil
+							}
+						}
+					}
+				}
+			}
 			return TV{g, nil}, nil
 		}
 		// parameters
